@@ -17,7 +17,8 @@ EVIDENCE = dict(
          "number found in the CVAL chunk of a written project / synth and the value loaded back, for every no-offset and "
          "negative-minimum controller (an eighth of the others). "
          "evaluations = (controller, unit, value) triples executed; non-trivial = value differs from the minimum."
-         " Vias meta-padded-slot (file with 27 mappings, two padded slots pointed in place at different targets) and meta-reattached (count lowered and raised again) for negative-minimum and unit-dependent controllers.",
+         " Vias meta-padded-slot (file with 27 mappings, two padded slots pointed in place at different targets) and meta-reattached (count lowered and raised again) for negative-minimum and unit-dependent controllers."
+         " Via meta-built saves the MetaModule between set_raw and the read-back for one value in 97.",
     explanation="finite domain enumerated completely")
 
 
